@@ -23,8 +23,11 @@
    references of which one is nil, where the emitted OP_EQ_INT is stuck (never's type checker would pick another
    opcode; the model has no types) — nil_cmp_mapped.  So `prog_in_P 8` is not a superset of `prog_in_P 7`.
    No side condition beyond the fragment predicate (the result must be an int or bool cell, as in F4 / F7).
-   TIED ONLY, not proved: record fields that are not int_shaped; records as fields of records; == / != on
-   records. *)
+   SHARED CELLS: an array element / a record field is `int_shaped` or the name of an int var in scope
+   (Compile4.elem_ok): `[x, 7]`, `P(x, x)` hold x's own cell, a write through v[0] or p.y is a write to x on both
+   sides (Example exS).
+   TIED ONLY, not proved: elements / fields that are other expressions not int_shaped (calls, lets, function
+   values); records as fields of records; == / != on records. *)
 From Coq Require Import ZArith List Bool Lia.
 From NV Require Import Gen.Opcodes Verifier.Effect Src.Syntax Src.Eval Src.EvalLemmas
   VM.ValueVM4 Src.Compile4 Src.CompileCorrect4Base Src.CompileCorrect4Rel Src.CompileCorrect4Shape
@@ -122,4 +125,26 @@ Definition exU : program := {| p_recs := [(1%N, [TInt; TInt])]; p_funcs := [main
 
 Example exU_runs : prog_in_P 8 exU = true /\
   run_vm exU 3000 [1] = VExc ExNil [] /\ run_program 300 exU [1] = OUnhandled ExNil [].
+Proof. vm_compute. repeat split; reflexivity. Qed.
+
+(* shared cells: the array and the record hold x's own cell
+   record P { x : int; y : int; }
+   func main(a : int) -> int
+   { var x = a + 0; var v = [ x, 7 ] : int; var p = P(x, x);
+     v[0] = 50 + a; p.y = x + 1000; x = x + 1;
+     v[0] + p.x + p.y + x }
+   the real VM: 4208 on 1 (all four summands are x = 1052) *)
+Definition mainS : fdef := FDef 0%N [(1%N, false, TInt)] TInt
+  [IVar 2%N (EBin Add (EVar 1%N) (EInt 0));
+   IVar 3%N (EArrLit [EVar 2%N; EInt 7] TInt);
+   IVar 4%N (ERecNew 1%N [EVar 2%N; EVar 2%N]);
+   IExpr (EAssign (EIndex (EVar 3%N) (EInt 0)) (EBin Add (EInt 50) (EVar 1%N)));
+   IExpr (EAssign (EField (EVar 4%N) 1%N 1%nat) (EBin Add (EVar 2%N) (EInt 1000)));
+   IExpr (EAssign (EVar 2%N) (EBin Add (EVar 2%N) (EInt 1)));
+   IExpr (EBin Add (EBin Add (EBin Add (EIndex (EVar 3%N) (EInt 0)) (EField (EVar 4%N) 1%N 0%nat))
+                            (EField (EVar 4%N) 1%N 1%nat)) (EVar 2%N))] [] None.
+Definition exS : program := {| p_recs := [(1%N, [TInt; TInt])]; p_funcs := [mainS]; p_main := 0%N |}.
+
+Example exS_runs : prog_in_P 8 exS = true /\
+  run_vm exS 3000 [1] = VRet 4208 [] /\ run_program 300 exS [1] = OResult (CInt 4208) [].
 Proof. vm_compute. repeat split; reflexivity. Qed.
